@@ -466,7 +466,7 @@ theorem substParams_eq_expected (uri : Bytes) (reqP clientP : List KV)
       have := List.any_eq_false.mp hv (valOf reqP clientP n) hused
       simpa using this
     simp only [pathValueSafe, Bool.and_eq_true] at hsafe
-    exact unreserved_ne_colon x (List.all_eq_true.mp hsafe.1.1.2 x hx)
+    exact unreserved_ne_colon x (List.all_eq_true.mp hsafe.1.1 x hx)
 
 
 
@@ -702,7 +702,7 @@ theorem expectedURI_clean (uri : Bytes) (reqP clientP : List KV)
       have hs := List.any_eq_false.mp hv v hmem
       simp only [Bool.not_eq_true, Bool.not_eq_false'] at hs
       simp only [pathValueSafe, Bool.and_eq_true] at hs
-      have := unreserved_ne y (List.all_eq_true.mp hs.1.1.2 y hy)
+      have := unreserved_ne y (List.all_eq_true.mp hs.1.1 y hy)
       exact ⟨this.1, this.2.1⟩
     cases h1 : mapGet reqP n with
     | some v => rw [h1] at hxt; exact used v (by rw [h1]) x hxt
